@@ -23,7 +23,7 @@ use sozu_command_lib::{
     channel::Channel,
     config::{ConfigBuilder, FileConfig, ListenerBuilder},
     proto::command::{
-        request::RequestType, ActivateListener, AddBackend, Cluster, ListenerType, LoadBalancingParams, PathRule,
+        request::RequestType, ActivateListener, AddBackend, AddCertificate, CertificateAndKey, Cluster, ListenerType, LoadBalancingParams, PathRule,
         Request, RequestHttpFrontend, RequestTcpFrontend, ResponseStatus, ReturnListenSockets, RulePosition,
         ServerConfig, SocketAddress, SoftStop, Status, WorkerRequest, WorkerResponse,
     },
@@ -157,6 +157,23 @@ fn setup(w: &mut W, ls: &[L], back: SocketAddr, from_scm: bool) -> bool {
                 lb.with_public_address(l.public);
                 reqs.push(RequestType::AddHttpsListener(lb.to_tls(None).unwrap()));
                 reqs.push(RequestType::ActivateListener(ActivateListener { address: a.clone(), proxy: ListenerType::Https.into(), from_scm }));
+                let cert = std::fs::read_to_string("/repo/lib/assets/certificate.pem").unwrap_or_default();
+                let key = std::fs::read_to_string("/repo/lib/assets/key.pem").unwrap_or_default();
+                reqs.push(RequestType::AddCluster(Cluster { cluster_id: cid.clone(), ..Default::default() }));
+                reqs.push(RequestType::AddCertificate(AddCertificate {
+                    address: a.clone(),
+                    certificate: CertificateAndKey { certificate: cert, certificate_chain: vec![], key, versions: vec![], names: vec![] },
+                    expired_at: None,
+                }));
+                reqs.push(RequestType::AddHttpsFrontend(RequestHttpFrontend {
+                    cluster_id: Some(cid.clone()),
+                    address: a.clone(),
+                    hostname: "lolcatho.st".into(),
+                    path: PathRule::prefix("/".to_string()),
+                    position: RulePosition::Tree.into(),
+                    ..Default::default()
+                }));
+                reqs.push(backend(&cid));
             }
             "tcp" => {
                 let mut lb = ListenerBuilder::new_tcp(a.clone());
@@ -222,6 +239,60 @@ fn bound(addr: SocketAddr, dgram: bool) -> std::collections::BTreeSet<u64> {
         }
     }
     out
+}
+
+#[derive(Debug)]
+struct NoVerify;
+impl rustls::client::danger::ServerCertVerifier for NoVerify {
+    fn verify_server_cert(&self, _: &rustls::pki_types::CertificateDer<'_>, _: &[rustls::pki_types::CertificateDer<'_>], _: &rustls::pki_types::ServerName<'_>, _: &[u8], _: rustls::pki_types::UnixTime) -> Result<rustls::client::danger::ServerCertVerified, rustls::Error> {
+        Ok(rustls::client::danger::ServerCertVerified::assertion())
+    }
+    fn verify_tls12_signature(&self, _: &[u8], _: &rustls::pki_types::CertificateDer<'_>, _: &rustls::DigitallySignedStruct) -> Result<rustls::client::danger::HandshakeSignatureValid, rustls::Error> {
+        Ok(rustls::client::danger::HandshakeSignatureValid::assertion())
+    }
+    fn verify_tls13_signature(&self, _: &[u8], _: &rustls::pki_types::CertificateDer<'_>, _: &rustls::DigitallySignedStruct) -> Result<rustls::client::danger::HandshakeSignatureValid, rustls::Error> {
+        Ok(rustls::client::danger::HandshakeSignatureValid::assertion())
+    }
+    fn supported_verify_schemes(&self) -> Vec<rustls::SignatureScheme> {
+        use rustls::SignatureScheme::*;
+        vec![RSA_PKCS1_SHA256, RSA_PKCS1_SHA384, RSA_PKCS1_SHA512, ECDSA_NISTP256_SHA256, ECDSA_NISTP384_SHA384, ECDSA_NISTP521_SHA512, ED25519, RSA_PSS_SHA256, RSA_PSS_SHA384, RSA_PSS_SHA512]
+    }
+}
+
+type Tls = rustls::StreamOwned<rustls::ClientConnection, TcpStream>;
+
+/// an HTTP/1.1 client over TLS (SNI lolcatho.st), handshake completed
+fn tls_connect(addr: SocketAddr) -> Option<Tls> {
+    let _ = rustls::crypto::ring::default_provider().install_default();
+    let mut config = rustls::ClientConfig::builder().dangerous().with_custom_certificate_verifier(std::sync::Arc::new(NoVerify)).with_no_client_auth();
+    config.alpn_protocols = vec![b"http/1.1".to_vec()];
+    let name = rustls::pki_types::ServerName::try_from("lolcatho.st".to_owned()).ok()?;
+    let mut conn = rustls::ClientConnection::new(std::sync::Arc::new(config), name).ok()?;
+    let mut tcp = TcpStream::connect_timeout(&addr, Duration::from_secs(5)).ok()?;
+    tcp.set_read_timeout(Some(Duration::from_secs(5))).ok()?;
+    tcp.set_write_timeout(Some(Duration::from_secs(5))).ok()?;
+    while conn.is_handshaking() {
+        conn.complete_io(&mut tcp).ok()?;
+    }
+    tcp.set_read_timeout(Some(Duration::from_millis(50))).ok()?;
+    Some(rustls::StreamOwned::new(conn, tcp))
+}
+
+fn tls_read_until(s: &mut Tls, acc: &mut Vec<u8>, done: impl Fn(&[u8]) -> bool) -> bool {
+    let t0 = Instant::now();
+    let mut buf = [0u8; 4096];
+    while t0.elapsed() < DEADLINE {
+        if done(acc) {
+            return true;
+        }
+        match s.read(&mut buf) {
+            Ok(0) => return done(acc),
+            Ok(n) => acc.extend_from_slice(&buf[..n]),
+            Err(e) if e.kind() == ErrorKind::WouldBlock || e.kind() == ErrorKind::TimedOut => {}
+            Err(_) => return done(acc),
+        }
+    }
+    done(acc)
 }
 
 fn read_until(s: &mut TcpStream, acc: &mut Vec<u8>, done: impl Fn(&[u8]) -> bool) -> bool {
@@ -296,6 +367,22 @@ fn softstop(seed: u64) {
         println!("note setup-failed the backend never received the request");
         return;
     }
+    // 1b. a second request in flight, over TLS on the https listener
+    let Some(mut tclient) = tls_connect(ls[1].addr) else {
+        println!("note setup-failed TLS connect");
+        return;
+    };
+    let _ = tclient.write_all(b"GET /x HTTP/1.1\r\nHost: lolcatho.st\r\n\r\n");
+    let _ = tclient.flush();
+    let Some(mut tbconn) = accept(&back_l, DEADLINE) else {
+        println!("note setup-failed the worker never connected to the backend for the https request");
+        return;
+    };
+    let mut tbreq = vec![];
+    if !read_until(&mut tbconn, &mut tbreq, head_done) {
+        println!("note setup-failed the backend never received the https request");
+        return;
+    }
     // 2. soft stop; wait for the acknowledgement (Processing from the proxies)
     w.post("SS", RequestType::SoftStop(SoftStop {}));
     let acked = w.wait(DEADLINE, |x| x.id == "SS");
@@ -349,8 +436,22 @@ fn softstop(seed: u64) {
     if !full {
         println!("viol request-cut the request in flight at SoftStop was cut: {} of {} answer bytes reached the client", got.len(), r.len());
     }
+    let r2 = resp(body / 2 + 1);
+    tbconn.write_all(&r2).unwrap();
+    let mut got2 = vec![];
+    let full2 = tls_read_until(&mut tclient, &mut got2, |a| a.len() >= r2.len());
+    if !full2 {
+        println!("viol request-cut the https request in flight at SoftStop was cut: {} of {} answer bytes reached the client", got2.len(), r2.len());
+    }
+    if w.count("SS", ResponseStatus::Ok) > 0 {
+        println!("viol softstop-early-ok the worker answered OK to SoftStop before the sessions in flight ended");
+    }
     drop(client);
     drop(bconn);
+    tclient.conn.send_close_notify();
+    let _ = tclient.flush();
+    drop(tclient);
+    drop(tbconn);
     // 5. exactly one final OK, then the worker exits
     let ok = w.wait(DEADLINE, |x| x.id == "SS" && x.status == ResponseStatus::Ok as i32);
     if !ok {
